@@ -89,9 +89,9 @@ Definition te_encode_eof (t : te) : option (te * bytes) :=
   end.
 
 (* ---------------------------------------------------------------- head *)
-(* http::StatusCode::canonical_reason for the statuses the harness uses *)
+(* http::StatusCode::canonical_reason (http 0.2: 103 has none) for the statuses the harness uses *)
 Definition reason_table : list (N * string) :=
-  [(100, "Continue"); (101, "Switching Protocols"); (102, "Processing"); (103, "Early Hints");
+  [(100, "Continue"); (101, "Switching Protocols"); (102, "Processing");
    (200, "OK"); (201, "Created"); (204, "No Content"); (304, "Not Modified");
    (400, "Bad Request"); (404, "Not Found"); (408, "Request Timeout");
    (431, "Request Header Fields Too Large"); (500, "Internal Server Error")]%string.
@@ -153,9 +153,10 @@ Definition encode_headers (r : resp) (ver : version) (length : bsize) (ct : conn
   let has_date := existsb (fun kv : bytes * bytes => name_is (fst kv) "date") (rs_headers r) in
   len_fields ++ conn_fields ++ user ++ (if has_date then [] else [(str "date", date_mask)]).
 
-(* no body may follow this status (MessageEncoder::encode, repaired: F2) *)
+(* no body may follow this status (MessageEncoder::encode, repaired: F2; 304 is not in the list:
+   the test-suite pins "304 with a body writes the body", see known finding F2-304-with-body) *)
 Definition status_no_body (s : N) : bool :=
-  (is_informational s && negb (s =? 101)) || (s =? 204) || (s =? 304).
+  (is_informational s && negb (s =? 101)) || (s =? 204).
 
 (* MessageEncoder::encode: transfer encoding chosen, connection type written, head *)
 Definition choose_te (head_req stream : bool) (r : resp) (ver : version) (length : bsize) : te :=
